@@ -35,6 +35,33 @@ EDITS = {
     "hash-explicit-tuple": ("permuta/patterns/meshpatt.py",
         "        return hash((self.pattern, self.shading))",
         "        key = (self.pattern, self.shading)\n        return hash(key)", ["C08"]),
+    "occurrences-rename-locals": ("permuta/patterns/perm.py",
+        "                element = pattern[i]\n                compare_colours = (\n                    self_colours is None or patt_colours[i] == self_colours[k]\n                )\n                if compare_colours and lower_bound <= element <= upper_bound:",
+        "                cur = pattern[i]\n                colours_ok = (\n                    self_colours is None or patt_colours[i] == self_colours[k]\n                )\n                if colours_ok and lower_bound <= cur <= upper_bound:", ["C01"]),
+    "occurrences-split-update": ("permuta/patterns/perm.py",
+        "                i, elements_remaining = i + 1, elements_remaining - 1",
+        "                i += 1\n                elements_remaining -= 1", ["C01"]),
+    "occurrences-early-guard": ("permuta/patterns/perm.py",
+        "        if n > len(pattern):\n            return\n",
+        "        if n > len(pattern) or len(pattern) == 0:\n            return\n", ["C01"]),
+    "floor-ceiling-rotate-other-way": ("permuta/patterns/perm.py",
+        "                while not deq[-1][0] <= val <= deq[0][0]:\n                    deq.rotate(1)",
+        "                while not deq[-1][0] <= val <= deq[0][0]:\n                    deq.rotate(-1)", ["C01"]),
+    "floor-ceiling-rename": ("permuta/patterns/perm.py",
+        "        smallest, biggest = -1, -1\n        for idx, val in enumerate(self):\n            if idx == 0:\n                deq.append((val, idx))\n                smallest, biggest = val, val",
+        "        smallest, biggest = -1, -1\n        for idx, val in enumerate(self):\n            if not idx:\n                deq.append((val, idx))\n                smallest = biggest = val", ["C01"]),
+    "mesh-occ-y-as-loop": ("permuta/patterns/meshpatt.py",
+        "                y = sum(\n                    1 for candidate_element in candidate if candidate_element < element\n                )",
+        "                y = 0\n                for candidate_element in candidate:\n                    if candidate_element < element:\n                        y += 1", ["C03"]),
+    "mesh-occ-flag-instead-of-for-else": ("permuta/patterns/meshpatt.py",
+        "                if (x, y) in self.shading:\n                    break\n            else:\n                yield tuple(candidate_indices)",
+        "                if (x, y) in self.shading:\n                    ok = False\n                    break\n            else:\n                ok = True\n            if ok:\n                yield tuple(candidate_indices)", ["C03"]),
+    "inversions-swap-loops-names": ("permuta/patterns/perm.py",
+        "        for i, prev in enumerate(self):\n            for j in range(i + 1, n):\n                if prev > self[j]:\n                    yield i, j",
+        "        for i, left in enumerate(self):\n            for j in range(i + 1, n):\n                if left > self[j]:\n                    yield (i, j)", ["C11"]),
+    "rtlmin-walrus-free": ("permuta/patterns/perm.py",
+        "        lis, (n, min_val) = [], (len(self),) * 2",
+        "        lis = []\n        n = min_val = len(self)", ["C11"]),
     "insenc-materialise-list": ("permuta/permutils/insertion_encodable.py",
         "        basis = tuple(basis)\n",
         "        basis = list(basis)\n", ["C13"]),
